@@ -20,7 +20,7 @@
  *   K <peer>            the peer answers everything it got so far with RST (observer / queued message cancelled)
  *   T <k>               stream peer k (0..7, known to the trace as peer 56+k) connects over TCP (a real loopback connection, accepted through the
  *                       library's own accept path) and sends its CSM
- *   t <k> <r|a|o> [hold] that peer sends GET /r, /a (parked as an async entry) or /o (Observe=0) on its connection
+ *   t <k> <r|a|o|b> [hold] that peer sends GET /r, /a (parked as an async entry), /o (Observe=0) or /b (Block2 0/16: a transfer is left pending) on its connection
  *   D <k>               that peer closes its connection (the library's next read reports the reset)
  *                       (A/a/U/S/N/I/F/E apply to stream peers through their peer number 56+k)
  *   I <ms>              run the I/O loop for <ms> of virtual time
@@ -460,10 +460,11 @@ int main(int argc, char **argv) {
       if (tp[k].s && *q && tp[k].nin + 8 < sizeof(tp[k].in)) {
         uint8_t *b = tp[k].in + tp[k].nin;
         size_t n = 0;
-        int obs = *q == 'o';
-        b[n++] = (uint8_t)(((obs ? 3 : 2) << 4) | 1); b[n++] = 1; b[n++] = (uint8_t)(0x10 + TCP_PEER0 + k);
+        int obs = *q == 'o', blk = *q == 'b';
+        b[n++] = (uint8_t)(((obs ? 3 : blk ? 4 : 2) << 4) | 1); b[n++] = 1; b[n++] = (uint8_t)(0x10 + TCP_PEER0 + k);
         if (obs) { b[n++] = 0x60; b[n++] = 0x51; } else b[n++] = 0xb1;
         b[n++] = (uint8_t)*q;
+        if (blk) { b[n++] = 0xc1; b[n++] = 0x00; }              /* Block2 0 / 16 bytes: the 200-byte body becomes a transfer hanging off the session */
         tp[k].nin += n;
         hold_next[TCP_PEER0 + k] = hold;
         fprintf(sim_trace, "{\"e\":\"Inject\",\"t\":%llu,\"peer\":%d,\"path\":\"%c\",\"con\":0,\"obs\":%d}\n", (unsigned long long)sim_now, TCP_PEER0 + k, *q, obs ? 0 : -1);
